@@ -2,7 +2,7 @@
 (* Scenario: member subsets of every response kind, statement shapes, COSE  *)
 (* key kinds, all pairs of members of every serialisable map type.          *)
 (* C02, C03 (and the corpus of C15 / C17).                                  *)
-EXTENDS Ctap, Gen
+EXTENDS Ctap, Gen, Lattice
 
 BIG == 7609
 
@@ -97,6 +97,11 @@ BoolCases ==
     \cup (IF TPP \in F THEN {RespCase("CredentialManagement", [CmRespMin EXCEPT !.thirdPartyPayment = <<b>>], BIG, "bool") : b \in BOOLEAN} ELSE {})
     \cup {TypeEncCase("McExt", [McExtMin EXCEPT !.hmacSecret = <<b>>, !.largeBlobKey = <<c>>], "bool") : b, c \in BOOLEAN}
 
-MC_Cases == BoolCases \cup GetInfoCases \cup McCases \cup GaCases \cup CpCases \cup CmCases \cup LbCases \cup BodylessCases
+\* every member of every response (nested ones too), one at a time, over the lattice of its TYPE
+ValueLattice ==
+    UNION {{RespCase(k, v, BIG, "value-lattice") : v \in OneAtATime(RespSchema(k), F, FALSE)} :
+              k \in {"GetInfo", "MakeCredential", "GetAssertion", "ClientPin", "CredentialManagement", "LargeBlobs"}}
+
+MC_Cases == ValueLattice \cup BoolCases \cup GetInfoCases \cup McCases \cup GaCases \cup CpCases \cup CmCases \cup LbCases \cup BodylessCases
             \cup LatticeCases \cup TypePairs
 =============================================================================
